@@ -366,6 +366,53 @@ pub fn run_history_observed(g: u64, steps: &[Step], prune: u64, supply: bool, re
                 }
             }
         }
+        // the same from further out, and in company: every output of a block that has left the
+        // window for the next block and whose key the node still holds (collected as dust, or
+        // about to be rebroadcast) is offered next to an input that carries no value and next to
+        // the owner's newest spendable output -- one admissible input must not carry an old one
+        {
+            let h = blocks.last().unwrap().id + 1;
+            let held: Vec<Slip> = {
+                let bc = p.node.blockchain.try_read().unwrap();
+                blocks
+                    .iter()
+                    .filter(|b| b.id + g + 1 <= h)
+                    .flat_map(|b| b.transactions.iter().flat_map(|t| t.to.iter()))
+                    .filter(|sl| sl.amount > 0 && sl.slip_type != SlipType::Bound && bc.utxoset.get(&sl.get_utxoset_key()) == Some(&true))
+                    .cloned()
+                    .collect()
+            };
+            for sl in held.iter().take(6) {
+                let Some(owner) = (0..10u8).map(key).find(|k| k.public == sl.public_key) else { continue };
+                let mut zero = Slip::default();
+                zero.public_key = owner.public;
+                zero.amount = 0;
+                let recent = before.unspent_of(&owner.public).into_iter().filter(|x| x.block_id + g >= h && x.slip_type != SlipType::Bound && x.slip_type != SlipType::BlockStake).max_by_key(|x| (x.block_id, x.tx_ordinal, x.slip_index));
+                let mut company: Vec<(&str, Slip)> = vec![("next-to-a-zero-amount-input", zero)];
+                if let Some(r) = recent {
+                    company.push(("next-to-a-recent-output", r));
+                }
+                for (label, c) in company {
+                    for first in [true, false] {
+                        let ins = if first { vec![sl.clone(), c.clone()] } else { vec![c.clone(), sl.clone()] };
+                        let total: u64 = ins.iter().map(|x| x.amount).sum();
+                        let spend = make_tx(&ins, &[(owner.public, total)], &owner, ts.saturating_sub(1), b"old-in-company");
+                        if let Outcome::Done(true) = p.submit(spend.clone()) {
+                            rep.violate(&format!("output-outside-the-window-spendable/{}", label), format!("before block {}: output {} of block {} (outside the window of block {}) admitted to the pool {}", h, sl.amount, sl.block_id, h, label), ctx.clone());
+                            let mp = p.node.mempool.clone();
+                            let sig = spend.signature;
+                            let _ = run(async move {
+                                let mut m = mp.write().await;
+                                m.transactions.remove(&sig);
+                                m.utxo_map.clear();
+                            });
+                        } else {
+                            rep.outcome("old-output-in-company-refused");
+                        }
+                    }
+                }
+            }
+        }
         match p.bundle(ts, s.gt) {
             Produced::Block(bytes) => {
                 let (a, _b) = p.commit(&bytes);
